@@ -167,6 +167,29 @@ func c07run(line string) (string, []string) {
 		if !overl && total != want {
 			viol = append(viol, fmt.Sprintf("tile data of the result is %d bytes but the distinct contents add up to %d", total, want))
 		}
+		// copying the listed source ranges to their destinations puts every tile's source bytes where its new entry points
+		if !overl && len(re) == len(es) {
+			srcOf := map[uint64]uint64{} // destination byte -> source byte
+			for _, x := range rs {
+				for k := uint64(0); k < x.Len && x.Len < 1<<20; k++ {
+					srcOf[x.Dst+k] = x.Src + k
+				}
+			}
+		scan:
+			for i, e := range es {
+				ne := re[i]
+				if ne.TileID != e.ID || ne.RunLength != e.Run || ne.Length != e.Len {
+					viol = append(viol, fmt.Sprintf("re-encoded entry %d is %+v, the source entry %+v", i, ne, e))
+					break
+				}
+				for k := uint64(0); k < uint64(e.Len) && e.Len < 1<<20; k++ {
+					if sp, ok := srcOf[ne.Offset+k]; !ok || sp != e.Off+k {
+						viol = append(viol, fmt.Sprintf("tile id %d: byte %d of its new content comes from source byte %d (present=%v), its content in the source starts at %d", e.ID, k, sp, ok, e.Off))
+						break scan
+					}
+				}
+			}
+		}
 		return fmt.Sprintf("%s ranges %s %d %d %d", entsStr(fromImpl(re)), rangesStr(rs), total, addr, cont), viol
 	case "merge", "mergechk":
 		bits := uint32(t.u())
@@ -513,6 +536,36 @@ func c07(r *rng, tier string, o *out) {
 		c07emit(o, "C07", fmt.Sprintf("relevant %d %s %s", r.intn(4), ivalsStr(iv), entsStr(es)), len(es) > 2, "relevant")
 		tiles, _ := genEntries(r, entOpts{n: r.intn(14), maxGapLog: 5, runs: true, shared: true})
 		c07emit(o, "C07", "reencode "+entsStr(dropSome(r, tiles)), len(tiles) > 2, "reencode")
+		// heavily shared contents (a pool of a few), clustered in first-use order, then thinned as a region does: later users survive
+		// their content's first user, back references are followed by contents seen for the first time, in every order
+		{
+			k := 2 + r.intn(4)
+			lens := make([]uint32, k)
+			offs := make([]uint64, k)
+			seen := make([]bool, k)
+			for i := range lens {
+				lens[i] = uint32(1 + r.intn(30))
+			}
+			var pe []Ent
+			var next uint64
+			id := uint64(r.intn(3))
+			for i := 0; i < 4+r.intn(14); i++ {
+				c := r.intn(k)
+				if !seen[c] {
+					seen[c], offs[c] = true, next
+					next += uint64(lens[c])
+				}
+				pe = append(pe, Ent{ID: id, Off: offs[c], Len: lens[c], Run: 1})
+				id += 1 + uint64(r.intn(3))
+			}
+			var kept []Ent
+			for _, e := range pe {
+				if !r.chance(40) {
+					kept = append(kept, e)
+				}
+			}
+			c07emit(o, "C07", "reencode "+entsStr(kept), len(kept) > 2, "reencode_pool")
+		}
 		rs := genRanges(r, 1+r.intn(9), r.chance(70), true)
 		of := overfetches[r.intn(len(overfetches))]
 		c07emit(o, "C07", fmt.Sprintf("merge %d %s", math.Float32bits(of), rangesStr(rs)), len(rs) > 2, "merge")
